@@ -50,7 +50,10 @@ CONSTANTS Classes,      \* top level classes to enumerate
           OrderMode,    \* "all" | "basic"
           PermMults,    \* multipliers for pseudo-random custom permutations
           Queries,      \* subset of {"index", "couplings", "multi", "neighbors", "values"}
-          DxCap,        \* |dx_a| <= Min(L_a, DxCap)
+          DxCap,        \* |dx_a| <= Min(L_a + DxExtra, DxCap)
+          DxExtra,      \* 0 | 1: also displacements / boxes that exceed the lattice by one
+          EnlargeSet,   \* factors for enlarge_mps_unit_cell (applied once to built infinite lattices)
+          GroupSet,     \* group sizes for with_grouped_sites
           MultiMod, MultiRes,   \* sampling of the multi-coupling catalogue
           BFMaxN,       \* brute-force theorems evaluated when N <= BFMaxN
           MaxRemove, MaxAdd,    \* IrregularLattice: number of removed / added sites
@@ -245,13 +248,17 @@ GroupDescr(base, nu) ==
 ------------------------------------------------------------------------------
 \* the case under consideration
 Cfg0 == [cls |-> "none", base |-> "none", Ls |-> <<>>, nleg |-> 0, nsp |-> 1, removed |-> <<>>, added |-> <<>>,
-         hcells |-> 0, bc |-> <<>>, shift |-> <<>>, bcmps |-> "finite", ord |-> [kind |-> "none"]]
+         hcells |-> 0, bc |-> <<>>, shift |-> <<>>, bcmps |-> "finite", ord |-> [kind |-> "none"],
+         \* derived lattices: `parent` is the case the lattice was derived from by enlarge_mps_unit_cell(enl)
+         \* or with_grouped_sites (groups of grp sites, gnu groups); Ls, removed, added, hcells describe the result
+         enl |-> 1, grp |-> 0, gnu |-> 0, parent |-> <<>>]
 
 D == Len(cfg.Ls)
 Ls == cfg.Ls
 RegNu == BaseNu(cfg.base, cfg.nleg)
 \* size of the final unit cell
-Nu == CASE cfg.cls = "Multi" -> RegNu * cfg.nsp
+Nu == CASE cfg.cls = "Grouped" -> cfg.gnu
+        [] cfg.cls = "Multi" -> RegNu * cfg.nsp
         [] cfg.cls = "Irregular" -> RegNu + (IF cfg.added = <<>> THEN 0 ELSE 1)
         [] OTHER -> RegNu
 N == Len(order)          \* sites in the MPS unit cell
@@ -540,6 +547,63 @@ Build ==
     /\ stage' = "built"
     /\ last' = [op |-> "build"]
 
+\* ---- lattices derived from a built one
+\* enlarge_mps_unit_cell(f) (infinite MPS only): "the new number of sites in the MPS unit cell will be increased
+\* from N_sites to factor*N_sites ... the lattice shape goes from (Lx, Ly, ..., Lu) to (Lx*factor, Ly, ..., Lu)":
+\* the order is repeated f times, shifted by Lx each time.  For the helix the number of cells is multiplied and
+\* the underlying regular lattice only grows if the new unit cell does not fit / divide it any more.
+\* `reorder` = what ordering(order) of the enlarged lattice means: the named order of the enlarged shape.
+ReorderOf(c, regLs) ==
+    LET regnu == BaseNu(c.base, c.nleg)
+        reg == OrderOf(c.base, regLs \o <<regnu>>, c.ord)
+    IN CASE c.cls = "Multi" -> MultiOrder(reg, c.nsp)
+         [] c.cls = "Irregular" -> IF c.added = <<>> THEN IrregOrder(reg, c.removed, <<>>, regnu) ELSE <<>>
+         [] c.cls = "Helical" -> SubSeq(reg, 1, c.hcells * regnu)
+         [] OTHER -> reg
+
+EnlargeMPSUnitCell ==
+    /\ stage = "built"
+    /\ cfg.enl = 1 /\ cfg.cls # "Grouped" /\ cfg.bcmps = "infinite" /\ cfg.ord.kind # "perm"
+    /\ \E f \in EnlargeSet :
+         LET newLs == [Ls EXCEPT ![1] = @ * f]
+             ShiftC(l, i) == [l EXCEPT ![1] = @ + i * Ls[1]]
+             Copies(sq) == ConcatAll([i \in 1..f |-> [k \in 1..Len(sq) |-> ShiftC(sq[k], i - 1)]])
+         IN IF cfg.cls = "Helical"
+            THEN LET cells == ProdSeq(Ls)
+                     hc == cfg.hcells * f
+                     grow == hc > cells \/ cells % hc # 0
+                     newfull == IF grow THEN Copies(full) ELSE full
+                     c == [cfg EXCEPT !.parent = cfg, !.enl = f, !.hcells = hc, !.Ls = IF grow THEN newLs ELSE Ls]
+                 IN /\ cfg' = c
+                    /\ full' = newfull
+                    /\ order' = SubSeq(newfull, 1, hc * RegNu)
+                    /\ last' = [op |-> "build", reorder |-> ReorderOf(c, c.Ls)]
+            ELSE LET c == [cfg EXCEPT !.parent = cfg, !.enl = f, !.Ls = newLs, !.removed = Copies(cfg.removed),
+                                      !.added = ConcatAll([i \in 1..f |-> [k \in 1..Len(cfg.added) |->
+                                                   [lat |-> ShiftC(cfg.added[k].lat, i - 1), where |-> cfg.added[k].where]]])]
+                 IN /\ cfg' = c
+                    /\ order' = Copies(order)
+                    /\ full' = Copies(order)
+                    /\ last' = [op |-> "build", reorder |-> ReorderOf(c, newLs)]
+    /\ stage' = "built"
+
+\* with_grouped_sites: "a trivial lattice with the grouped_sites as sites and the same bc_MPS": one unit cell
+\* (Ls = <<1>>) holding the groups in MPS order; its lattice indices are <<x_0, group>>, and the next MPS unit
+\* cell is x_0 + 1 of *this* lattice (mps_unit_cell_width keeps the width of the original lattice)
+GroupSites ==
+    /\ stage = "built"
+    /\ cfg.cls # "Grouped" /\ cfg.ord.kind # "perm"
+    /\ \E n \in GroupSet :
+         /\ n <= N
+         /\ LET g == (N + n - 1) \div n
+                ord == [k \in 1..g |-> <<0, k - 1>>]
+            IN /\ cfg' = [cfg EXCEPT !.parent = cfg, !.cls = "Grouped", !.grp = n, !.gnu = g, !.Ls = <<1>>,
+                                     !.bc = <<"periodic">>, !.shift = <<0>>, !.removed = <<>>, !.added = <<>>]
+               /\ order' = ord
+               /\ full' = ord
+    /\ stage' = "built"
+    /\ last' = [op |-> "build"]
+
 \* ---- queries (one result state each)
 Done(l) == /\ stage = "built"
            /\ stage' = "done"
@@ -553,11 +617,11 @@ QIndex ==
              m2l |-> [k \in 1..Len(WinSeq) |-> Mps2Lat(WinSeq[k])],
              fixu |-> [u \in 1..Nu |-> FixU(u - 1)]])
 
-DxSet == {dx \in [1..D -> (-DxCap)..DxCap] : \A a \in 1..D : Abs(dx[a]) <= Ls[a]}
+DxSet == {dx \in [1..D -> (-DxCap)..DxCap] : \A a \in 1..D : Abs(dx[a]) <= Ls[a] + DxExtra}
 
 QCouplings ==
     /\ stage = "built"
-    /\ "couplings" \in Queries
+    /\ "couplings" \in Queries /\ cfg.cls # "Grouped"
     /\ \E u1 \in 0..(Nu - 1), u2 \in 0..(Nu - 1), dx \in DxSet :
          Done([op |-> "couplings", u1 |-> u1, u2 |-> u2, dx |-> dx, shape |-> CouplingShape(dx),
                rows |-> CouplingRows(u1, u2, dx)])
@@ -572,15 +636,15 @@ Plaquettes == IF D = 2 THEN {<< <<<<0, 0>>, u>>, <<<<1, 0>>, u>>, <<<<1, 1>>, u>
                             \cup {<< <<<<1, 2>>, u>>, <<<<2, 1>>, Nu - 1 - u>> >> : u \in 0..(Nu - 1)}
               ELSE IF D = 1 THEN {<< <<<<2>>, u>>, <<<<1>>, Nu - 1 - u>>, <<<<3>>, u>> >> : u \in 0..(Nu - 1)}
               ELSE {}
-\* (only boxes that are not larger than the lattice: "displacements up to the lattice size")
-Fits(ops) == \A a \in 1..D : MultiMax(ops)[a] - MultiMin(ops)[a] <= Ls[a]
+\* (only boxes that are not larger than the lattice (+ DxExtra): "displacements up to the lattice size")
+Fits(ops) == \A a \in 1..D : MultiMax(ops)[a] - MultiMin(ops)[a] <= Ls[a] + DxExtra
 OpsCatalogue == {ops \in Triple3 : OpsHash(ops) % MultiMod = MultiRes /\ Fits(ops)
                                     /\ ~(ops[1] = ops[2] /\ ops[2] = ops[3])}
                    \cup {ops \in Plaquettes : Fits(ops)}
 
 QMulti ==
     /\ stage = "built"
-    /\ "multi" \in Queries
+    /\ "multi" \in Queries /\ cfg.cls # "Grouped"
     /\ \E ops \in OpsCatalogue :
          Done([op |-> "multi", ops |-> ops, shape |-> MultiShape(ops), mins |-> MultiMin(ops), rows |-> PlacementRows(ops)])
 
@@ -616,7 +680,7 @@ QValues ==
                 inds3 |-> right, masked3 |-> [k \in 1..Len(right) |-> <<Mps2Lat(right[k]), right[k]>>],
                 x0mono |-> mono])
 
-Next == ChooseClass \/ ChooseSize \/ ChooseVariant \/ ChooseBC \/ Build
+Next == ChooseClass \/ ChooseSize \/ ChooseVariant \/ ChooseBC \/ Build \/ EnlargeMPSUnitCell \/ GroupSites
           \/ QIndex \/ QCouplings \/ QMulti \/ QNeighbors \/ QValues
 Spec == Init /\ [][Next]_vars
 
@@ -660,7 +724,7 @@ HelixFormula ==
 \* meaning of the standard orders: without snake the order is lexicographic in the directions sorted by
 \* priority; with snake everywhere consecutive sites are adjacent (differ by one in one direction)
 StdOrderMeaning ==
-    (Built /\ cfg.cls \in RegularClasses /\ cfg.ord.kind = "standard") =>
+    (Built /\ cfg.cls \in RegularClasses /\ cfg.ord.kind = "standard" /\ cfg.enl = 1) =>
         LET dirs == DirsByPrio(cfg.ord.prio)
             keyOf(l) == [k \in 1..(D + 1) |-> l[dirs[k]]]
         IN /\ (\A d \in 1..(D + 1) : ~cfg.ord.snake[d]) =>
